@@ -5,6 +5,7 @@ V = os.path.dirname(os.path.dirname(os.path.abspath(__file__)))
 ALL = ["C%02d" % i for i in range(1, 20)]
 # property -> (families, level text, level note)
 CLAIMED = {
+ "C14": ("scope", "Generated-schedule search over coroutine::scope (with nested scopes), join! inside a select arm that gets cancelled (safe code), and cqueue scopes with looping arms; faults: owner panics in the body, owner cancelled at a generated time, child panics; oracle = frame tombstone (no child step observes the borrowed frame dead), no child still running when the owner has ended, child panic reaches the owner, owner outcome consistent with the injected fault, no crash, no hang.", "5/C14"),
  "C01": ("spawn", "Generated-schedule search over spawn trees of up to 16 coroutines (spawned from the main thread, user threads and other coroutines, with builder options and small pools), bodies that yield/sleep/park/lock/spawn and end in a value or a panic, spawners that wait with join, wait(), is_done() polling or cancel; oracle = execution counter exactly 1, residency flag never found set (never on two OS threads at once), join() result equals the closure's outcome, completion never reported before the closure's last action, every join returns (exact deadlock detection).", "5/C01"),
  "C02": ("park", "Generated-schedule search over park/unpark protocols: coroutine::park / park_timeout(1h) and fresh Blockers parked in thread and coroutine context over several rounds, unparkers calling unpark 1-3 times per round after the previous park returned; oracle = every park returns (exact deadlock detection; a 1 h time-out that actually elapses in virtual time is a lost wake-up), Blocker::park reports Ok only after an unpark on that blocker, Timeout only after the deadline, never Canceled.", "5/C02"),
  "C09": ("cancel", "Generated-schedule search: a target coroutine owning drop-counted stack values (and optionally a second Mutex) runs 1-4 blocking operations (park, sleep, Mutex::lock, Semphore::wait, Condvar::wait, mpsc/mpmc recv, join, SyncFlag::wait, RwLock::write, cqueue poll) while a granter issues the awaited events and a canceller cancels it at a generated time, with bystanders on the same primitives; oracle = join returns Cancel (or Ok only after all operations), no hang (exact deadlock/livelock detection), stack values dropped exactly once when join returns, held mutex released and not poisoned, waited-on primitives free and conserving permits/tickets, bystanders all complete and never see a cancel, a sleep that starts after cancel() returned never completes. Socket I/O cancellation is checked by C18.", "5/C09"),
